@@ -273,8 +273,48 @@ class CmpExtractor:
             return ("bin", n["op"], self.describe(n["l"], env), self.describe(n["r"], env))
         return ("?", k)
 
+    # ---- iterator adaptors with a closure: the closure body is the loop body -------------------
+    ADAPTORS = ("::find_map", "::all", "::any", "::find", "::position", "::try_for_each", "::for_each", "::map")
+
+    def adaptor(self, n, env, reject_when):
+        """`it.find_map(|x| ..)` / `it.all(|x| ..)`: walk the closure body once with x bound to the element; returns True if handled"""
+        c = callee(n) or ""
+        if not c.endswith(self.ADAPTORS) or len(n.get("args", [])) != 2:
+            return False
+        clo = peel(n["args"][1])
+        if clo.get("k") != "Closure":
+            return False
+        g = self.facts.fns.get(clo["id"])
+        if g is None or not g.get("body"):
+            return False
+        it = self.pv(n["args"][0], env)
+        e = self.elem(it)
+        if e is None:
+            return False
+        env2 = dict(env)
+        ps = [p for p in g["params"][1:] if p.get("pat")]
+        if ps:
+            self.bind(ps[0]["pat"], e, env2)
+        depth = len(self.markers)
+        name = c.rsplit("::", 1)[-1]
+        if name in ("all", "any"):
+            tail = g["body"]
+            if tail.get("k") == "Block":
+                for s_ in tail["stmts"]:
+                    self.body({"k": "Block", "stmts": [s_], "e": None}, env2)
+                tail = tail.get("e") or {}
+            if tail:
+                pol = reject_when if name == "all" else (None if reject_when is None else (not reject_when))
+                self.cond(tail, env2, False if reject_when is None and name == "all" else pol)
+        else:
+            self.body(g["body"], env2)
+        self.close_markers(depth, "loop")
+        return True
+
     # ---- calls ------------------------------------------------------------
     def call(self, n, env, reject_when, let_pat=None, reject_when_match=None):
+        if self.adaptor(n, env, reject_when if isinstance(reject_when, bool) else None):
+            return
         """a call whose result decides acceptance: inline local helpers, record recursion"""
         target = (n.get("res") or {}).get("fn") or n.get("fn")
         args = [self.pv(a, env) for a in n["args"]]
